@@ -89,6 +89,24 @@ seed={
 'C19-d-1':('`--global` declared with `multiple_values(true)`: a following positional is swallowed',True,''),
 'C19-d-2':('file reader appends a newline to files that lack one',False,'sources without a final newline; an echo program (module text and extent)'),
 'C19-d-3':('`--global` name and value trimmed',False,'global values with leading/trailing blanks; echo program'),
+'C04-e-1':('lazy: inherited value evaluated while the per-name cell is still `Forcing` (a value that reads the same name on another node fails as "recursively defined")',False,'definitions whose value copies the same variable from another node'),
+'C04-e-2':('strict: the inherit walk passes over ancestors whose value is `#null`',False,'`#null`-valued definitions'),
+'C04-e-3':('lazy: the inherit walk gives up after 256 ancestors',False,'deeply nested sources (300-600 levels) with far-away definitions'),
+'C08-e-1':('lazy: match limit 1024 on the merged-query cursor (matches silently dropped)',False,'sibling pair/triple patterns with thousands of in-flight matches'),
+'C08-e-2':('lazy: scope held in a local variable resolved at definition time, stored as a plain node (duplicate detection and order differ)',False,'definitions through an alias of a capture in one stanza and through the capture in another'),
+'C08-e-3':('lazy: forcing depth capped at 1000 (`ValueNestedTooDeeply` in some orders only)',False,'chains of a thousand dependent lazy values (on a big-stack thread)'),
+'C09-e-1':('`Attributes`: 8 inline slots + overflow map; `add` consults only the overflow map once it exists',True,''),
+'C09-e-2':('hand-written `Ord for Value`: sets of equal size compare equal',False,'set-valued attribute literals'),
+'C09-e-3':('strict `attr (node)`: attribute set moved out of the graph, lost when the statement fails',True,''),
+'C11-e-1':('lazy: bare errors from loop/comprehension sources re-labelled `ExpectedList`',True,''),
+'C11-e-2':('lazy: errors of the final `evaluate_all` reported only if "structural"',True,''),
+'C11-e-3':('lazy: scope-evaluation failures mapped to `InvalidVariableScope`',True,''),
+'C12-e-1':('quantified captures sorted and deduplicated by `SyntaxNodeRef` (node address)',True,''),
+'C12-e-2':('lazy: 1.5 s wall-clock timeout on the merged-query cursor (matches silently dropped)',False,'clock seam S7: interposed `clock_gettime`, seeded fast-forward per caller thread'),
+'C12-e-3':('strict: parameter stack hoisted into `File` behind a `Mutex`, locked per push/drain',False,'— blind spot (10.4): symptoms are seen (divergent shared runs after a scheduler stall) but do not replay; the check exits 2, not 1'),
+'C19-e-1':('exit status = number of parse errors (0 at 256)',False,'sources with exactly 256 syntax errors'),
+'C19-e-2':('CLI skips `execute` for files without stanzas (globals never checked)',False,'stanza-less DSL files with declared globals'),
+'C19-e-3':('CLI pre-check of declared globals ignores defaults',True,''),
 'C19-a-1':('`--output` file opened without truncation',True,''),
 'C19-a-2':('parse-error discovery skips MISSING anonymous tokens',False,'MISSING-token-only syntax faults in sources'),
 'C19-b-1':('`--global` values split at commas',False,'global values with commas, option-like and quoted values'),
@@ -105,7 +123,7 @@ for k in sorted(mut):
 n=len(seed); first=sum(1 for v in seed.values() if v[1]); now=sum(1 for k in seed if status.get(f'seeded/{k}/patch.diff')=='caught')
 text=f'''### 10.3 Seeded changes (written by independent sub-agents) and my own mutants
 
-{n} changes were written in four waves by sub-agents that were given only the text of one
+{n} changes were written in five waves by sub-agents that were given only the text of one
 property and a scratch worktree (later waves: also one-line descriptions of the
 ideas already explored and a focus area, to force different mechanisms).
 Every change compiles and passes the 162 tests + doctest; each has a demonstration that fails
